@@ -334,6 +334,28 @@ def pad_edges(data, pad_length, mode='extrapolate',
     return padded_data
 
 
+def _extrapolate_pinv(vandermonde):
+    """
+    Calculates the pseudo-inverse for extrapolating edges with a linear fit.
+
+    Parameters
+    ----------
+    vandermonde : numpy.ndarray, shape (M, 2)
+        The Vandermonde matrix of the points used for the linear fit.
+
+    Returns
+    -------
+    numpy.ndarray, shape (2, M)
+        The pseudo-inverse of `vandermonde`. If only a single point is used for the fit,
+        a line is not defined, so the edge value is extended as a constant, to match the
+        behavior of :func:`._get_edges`.
+
+    """
+    if vandermonde.shape[0] == 1:
+        return np.array([[1.], [0.]])
+    return np.linalg.pinv(vandermonde)
+
+
 def _extrapolate2d(y, total_padding, extrapolate_window=None):
     """
     Extrapolates each edge of two dimensional data.
@@ -396,19 +418,18 @@ def _extrapolate2d(y, total_padding, extrapolate_window=None):
 
     vander_x = np.polynomial.polynomial.polyvander(x, 1)
     vander_z = np.polynomial.polynomial.polyvander(z, 1)
-    pinv_top = np.linalg.pinv(
+    pinv_top = _extrapolate_pinv(
         vander_x[total_padding[0]:-total_padding[0]][:extrapolate_windows[0][0]]
     )
-    pinv_bottom = np.linalg.pinv(
+    pinv_bottom = _extrapolate_pinv(
         vander_x[total_padding[0]:-total_padding[0]][-extrapolate_windows[0][1]:]
     )
-    pinv_left = np.linalg.pinv(
+    pinv_left = _extrapolate_pinv(
         vander_z[total_padding[1]:-total_padding[1]][:extrapolate_windows[1][0]]
     )
-    pinv_right = np.linalg.pinv(
+    pinv_right = _extrapolate_pinv(
         vander_z[total_padding[1]:-total_padding[1]][-extrapolate_windows[1][1]:]
     )
-
     top = vander_x[:total_padding[0]] @ (pinv_top @ y[:extrapolate_windows[0][0]])
     bottom = vander_x[-total_padding[0]:] @ (pinv_bottom @ y[-extrapolate_windows[0][1]:])
 
